@@ -1299,6 +1299,7 @@ def sort(x, /, *, axis=-1, descending=False, stable=False):
     if stable:
         raise ValueError("`stable=True` isn't currently supported.")
 
+    axis = normalize_axis(axis, x.ndim)
     original_ndim = x.ndim
     if x.ndim == 1:
         x = x[None, :]
@@ -1306,7 +1307,7 @@ def sort(x, /, *, axis=-1, descending=False, stable=False):
 
     x = moveaxis(x, source=axis, destination=-1)
     x_shape = x.shape
-    x = x.reshape((-1, x_shape[-1]))
+    x = x.reshape((reduce(operator.mul, x_shape[:-1], 1), x_shape[-1]))
 
     new_coords, new_data = _sort_coo(x.coords, x.data, x.fill_value, sort_axis_len=x_shape[-1], descending=descending)
 
@@ -1315,7 +1316,7 @@ def sort(x, /, *, axis=-1, descending=False, stable=False):
     x = x.reshape(x_shape[:-1] + (x_shape[-1],))
     x = moveaxis(x, source=-1, destination=axis)
 
-    return x if original_ndim == x.ndim else x.squeeze()
+    return x if original_ndim == x.ndim else x.squeeze(0)
 
 
 def take(x, indices, /, *, axis=None):
